@@ -21,73 +21,76 @@ M = 'debfile'
 
 
 def r1_path_spelling(rep, src):
+    from .. import heap as H, symstr
+    from ..symstr import SStr
     f = src.func(M + ':DebPart.__normalize_member')
     rep.saw_func(f)
-    p = f.params()[0]
-    # prefix table: if/elif chain of  fname.startswith(P): fname = fname[len(P):]
-    table = []
-    bad = None
-    body = [s for s in f.node.body if not (isinstance(s, ast.Expr) and isinstance(s.value, ast.Constant))]
-    rets = [s for s in body if isinstance(s, ast.Return)]
-    for c in ast.walk(f.node):
-        if isinstance(c, ast.Call) and isinstance(c.func, ast.Attribute) and c.func.attr in ('lstrip', 'strip', 'rstrip', 'replace') and norm(c.func.value) == p:
-            bad = 'the name is normalised with %s, which removes a *set of characters* / every occurrence, not one leading prefix: a member such as ' \
-                  '".hidden" or "..data/x" is looked up under a different name' % norm(c)
-    node = body[0] if body and isinstance(body[0], ast.If) else None
-    while node is not None and bad is None:
-        t = node.test
-        ok = isinstance(t, ast.Call) and isinstance(t.func, ast.Attribute) and t.func.attr == 'startswith' and norm(t.func.value) == p \
-            and len(t.args) == 1 and isinstance(t.args[0], ast.Constant) and isinstance(t.args[0].value, str)
-        if not ok:
-            bad = 'unrecognised prefix test `%s`' % norm(t)
-            break
-        pre = t.args[0].value
-        asg = node.body[0] if len(node.body) == 1 and isinstance(node.body[0], ast.Assign) else None
-        sl = asg.value if asg is not None else None
-        if not (asg is not None and norm(asg.targets[0]) == p and isinstance(sl, ast.Subscript) and norm(sl.value) == p and isinstance(sl.slice, ast.Slice)
-                and sl.slice.upper is None and isinstance(sl.slice.lower, ast.Constant)):
-            bad = 'prefix %r is not removed by slicing' % pre
-            break
-        table.append((pre, sl.slice.lower.value))
-        if len(node.orelse) == 1 and isinstance(node.orelse[0], ast.If):
-            node = node.orelse[0]
-        elif not node.orelse:
-            node = None
-        else:
-            bad = 'unexpected else branch'
-    if bad is None:
-        if sorted(table) != [('./', 2), ('/', 1)]:
-            bad = 'the prefixes removed are %r; exactly "./" (2 characters) and "/" (1 character) must be stripped, once' % (table,)
-        elif not (rets and norm(rets[-1].value) == p):
-            bad = 'the normalised name is not returned'
-    if bad:
-        rep.fail('C07.R1', f.site, 'normaliser strips exactly one leading "./" or "/"', bad, where=f.where)
-    else:
-        rep.ok('C07.R1', f.site, 'normaliser strips exactly one leading "./" or "/"', 'if startswith("./"): [2:] elif startswith("/"): [1:]')
-    # sanitizer: the name passes the normaliser before any use; same lookup spelling
-    spell = {}
-    for mname, sink in (('has_file', 'getnames'), ('get_file', 'extractfile')):
+    # the three spellings of a member name, as cases over symbolic strings
+    X1 = symstr.atom('name', r'[^./](?s:.*)')                 # plain relative name
+    X2 = SStr(['.']) + symstr.atom('idden', r'[^/](?s:.*)')   # starts with '.', not with './' (".hidden", "..data")
+    ANY = symstr.atom('rest', r'(?s:.*)')
+    cases = [('plain name', X1, X1), ('name starting with a dot', X2, X2), ('"./" + rest', SStr(['./']) + ANY, ANY), ('"/" + rest', SStr(['/']) + ANY, ANY),
+             ('empty name', SStr(), SStr())]
+    for mname in ('has_file', 'get_file'):
         g = src.func(M + ':DebPart.' + mname)
         rep.saw_func(g)
-        fn = g.params()[1]
-        G = cfg.CFG(g.node)
-        san = [n for n in G.stmts() if n.kind == 'stmt' and isinstance(n.ast, ast.Assign) and isinstance(n.ast.value, ast.Call)
-               and norm(n.ast.value.func).endswith('__normalize_member') and [norm(a) for a in n.ast.value.args] == [fn]]
-        uses = [n for n in G.nodes if n.ast is not None and n.kind in ('stmt', 'return', 'test') and
-                any(isinstance(x, ast.Name) and x.id == fn and isinstance(x.ctx, ast.Load) for x in ast.walk(n.ast)) and n not in san]
-        what = '%s: name is normalised before use' % mname
-        if san and norm(san[0].ast.targets[0]) == fn and all(G.dominates(san[0].id, u.id) for u in uses) and uses:
-            rep.ok('C07.R1', g.site, what, '%s dominates %d use(s)' % (norm(san[0].ast), len(uses)))
-        else:
-            rep.fail('C07.R1', g.site, what, 'the member name reaches the tar lookup without passing __normalize_member: "name", "./name" and "/name" are answered differently',
-                     where=g.where)
-        lk = [norm(x) for n in uses for x in ast.walk(n.ast) if isinstance(x, ast.BinOp) and isinstance(x.op, ast.Add) and norm(x.right) == fn]
-        spell[mname] = lk
-    if spell.get('has_file') == ["'./' + fname"] and spell.get('get_file') == ["'./' + fname"]:
-        rep.ok('C07.R1', M + ':DebPart', 'one lookup spelling', "'./' + name in both has_file and get_file")
+        for cname, arg, rel in cases:
+            want = SStr(['./']) + rel
+            looked = []
+
+            def getnames(it, args, kw, want=want):
+                looked.append(('getnames', None))
+                return it.h.new_list([want])
+
+            def extractfile(it, args, kw):
+                looked.append(('extractfile', args[1] if len(args) > 1 else None))
+                return it.h.alloc('FileObj', {}, name='@fobj')
+            heap = H.Heap(src.mod(M), hooks={'.tgz': lambda it, args, kw: it.h.alloc('Tar', {}, name='@tar'), '.getnames': getnames, '.extractfile': extractfile,
+                                             'io.TextIOWrapper': lambda it, args, kw: args[0]})
+            heap.symbolic_strings = True
+            part = heap.alloc('DebPart', {}, name='@part')
+            it = H.Interp(heap)
+            what = '%s(%s) looks up "./" + relative name' % (mname, cname)
+            try:
+                r = it.call(H.Closure(g.node, {}, part, g.cls), [arg] + ([None, None] if mname == 'get_file' else []))
+            except H.Raised as x:
+                rep.fail('C07.R1', g.site, what, 'raises %s' % x.exc, where=g.where)
+                continue
+            if mname == 'has_file':
+                if r is True:
+                    rep.ok('C07.R1', g.site, what, 'member %r is found for the spelling %r' % (want, arg))
+                else:
+                    rep.fail('C07.R1', g.site, what, 'the archive member %r is not found when asked for %r: "name", "./name" and "/name" are answered differently '
+                             '(the name must lose exactly one leading "./" or "/")' % (want, arg), where=g.where)
+            else:
+                got = [x[1] for x in looked if x[0] == 'extractfile']
+                if len(got) == 1 and isinstance(got[0], (SStr, str)) and symstr.lift(got[0]).same(want):
+                    rep.ok('C07.R1', g.site, what, 'extractfile(%r)' % (got[0],))
+                else:
+                    rep.fail('C07.R1', g.site, what, 'asked for %r, the tar member looked up is %r instead of %r: membership and content queries disagree / the name is '
+                             'not normalised by removing exactly one leading "./" or "/"' % (arg, got, want), where=g.where)
+    # two parts (of one or of different packages) in one process: each answers from its own archive only, whatever was
+    # asked of the other before (no state shared between DebPart objects)
+    g = src.func(M + ':DebPart.has_file')
+    archives = {'@partA': ['./usr/bin/a', './control'], '@partB': ['./usr/bin/b']}
+    heap = H.Heap(src.mod(M), hooks={'.tgz': lambda it, args, kw: it.h.alloc('Tar', {'owner': args[0].name}),
+                                     '.getnames': lambda it, args, kw: it.h.new_list(list(archives[it.h.objs[args[0].name]['owner']]))})
+    heap.symbolic_strings = True
+    pa, pb = heap.alloc('DebPart', {}, name='@partA'), heap.alloc('DebPart', {}, name='@partB')
+    it = H.Interp(heap)
+    script = [(pa, 'usr/bin/a', True), (pb, 'usr/bin/b', True), (pb, 'usr/bin/a', False), (pa, 'usr/bin/b', False), (pa, 'control', True), (pb, 'control', False)]
+    wrong = None
+    for part, name, want in script:
+        try:
+            r = it.call(H.Closure(g.node, {}, part, g.cls), [name])
+        except H.Raised as x:
+            r = 'raises ' + x.exc
+        if r is not want and wrong is None:
+            wrong = 'after earlier queries on another part, %s.has_file(%r) answers %r although its archive holds %r' % (part.name, name, r, archives[part.name])
+    if wrong:
+        rep.fail('C07.R1', g.site, 'a part answers from its own archive only', wrong + ': state is shared between DebPart objects (class-level container / cache)', where=g.where)
     else:
-        rep.fail('C07.R1', M + ':DebPart', 'one lookup spelling', 'has_file looks up %s, get_file looks up %s: membership and content queries disagree'
-                 % (spell.get('has_file'), spell.get('get_file')))
+        rep.ok('C07.R1', g.site, 'a part answers from its own archive only', '%d interleaved queries on two parts' % len(script))
     for mname, via in (('__contains__', 'self.has_file'), ('__getitem__', 'self.get_content'), ('get_content', 'self.get_file')):
         g = src.func(M + ':DebPart.' + mname)
         if any(isinstance(c, ast.Call) and norm(c.func) == via and norm(c.args[0]) == g.params()[1] for c in ast.walk(g.node)):
@@ -99,134 +102,102 @@ def r1_path_spelling(rep, src):
 def r2_part_discovery(rep, src):
     f = src.func(M + ':DebFile.__init__')
     rep.saw_func(f)
-    inner = [n for n in f.node.body if isinstance(n, ast.FunctionDef)]
-    if len(inner) != 1:
-        raise AnalysisError('%s: part-name helper not found' % f.site)
-    h = inner[0]
-    base = h.args.args[0].arg
+    from .. import heap as H
+    import itertools
     mod = src.mod(M)
     exts = mod.consts.get('', {}).get('PART_EXTS')
     if not exts or not {'gz', 'bz2', 'xz', 'lzma'} <= set(exts):
         rep.fail('C07.R2', M + ':PART_EXTS', 'compression extensions', 'PART_EXTS = %r lacks one of gz, bz2, xz, lzma' % (exts,))
     else:
         rep.ok('C07.R2', M + ':PART_EXTS', 'compression extensions', repr(exts), nontrivial=False)
-    # flow-sensitive set expressions
-    outcomes = []
+    consts = mod.consts.get('', {})
+    CTRL, DATA, INFO = consts.get('CTRL_PART'), consts.get('DATA_PART'), consts.get('INFO_PART')
+    if (CTRL, DATA, INFO) != ('control.tar', 'data.tar', 'debian-binary'):
+        rep.fail('C07.R2', M, 'part names', 'CTRL_PART/DATA_PART/INFO_PART are %r' % ((CTRL, DATA, INFO),))
+        return
 
-    def run(stmts, env):
-        for i, st in enumerate(stmts):
-            if isinstance(st, ast.Expr) and isinstance(st.value, ast.Constant):
-                continue
-            if isinstance(st, ast.Assign) and isinstance(st.targets[0], ast.Name):
-                name = st.targets[0].id
-                v = st.value
-                val = ('other', norm(v)[:50])
-                if isinstance(v, ast.ListComp) and norm(v.elt) == "'%%s.%%s' %% (%s, %s)" % (base, norm(v.generators[0].target)) \
-                        and norm(v.generators[0].iter) == 'PART_EXTS' and not v.generators[0].ifs:
-                    val = ('set', frozenset(['COMP']))
-                else:
-                    inter = None
-                    if isinstance(v, ast.Call) and isinstance(v.func, ast.Attribute) and v.func.attr == 'intersection' and len(v.args) == 1:
-                        inter = (v.func.value, v.args[0])
-                    elif isinstance(v, ast.BinOp) and isinstance(v.op, ast.BitAnd):
-                        inter = (v.left, v.right)
-                    if inter is not None:
-                        ops = []
-                        for o in inter:
-                            if isinstance(o, ast.Call) and norm(o.func) in ('set', 'frozenset') and len(o.args) == 1:
-                                o = o.args[0]
-                            ops.append(norm(o))
-                        other = [o for o in ops if o != 'actual_names']
-                        if 'actual_names' in ops and len(other) == 1 and isinstance(env.get(other[0]), tuple) and env[other[0]][0] == 'set':
-                            val = ('cap', env[other[0]][1])
-                env = dict(env)
-                env[name] = val
-                continue
-            if isinstance(st, ast.Expr) and isinstance(st.value, ast.Call) and isinstance(st.value.func, ast.Attribute) \
-                    and st.value.func.attr in ('append', 'add') and isinstance(st.value.func.value, ast.Name):
-                name = st.value.func.value.id
-                if isinstance(env.get(name), tuple) and env[name][0] == 'set' and [norm(a) for a in st.value.args] == [base]:
-                    env = dict(env)
-                    env[name] = ('set', env[name][1] | {'BASE'})
-                    continue
-                raise AnalysisError('%s: unrecognised mutation %s' % (f.site, norm(st)))
-            if isinstance(st, ast.If):
-                t = norm(st.test)
-                rest = list(stmts[i + 1:])
-                if t in ('%s in (DATA_PART, CTRL_PART)' % base, '%s in (CTRL_PART, DATA_PART)' % base, '%s in [DATA_PART, CTRL_PART]' % base):
-                    # for control/data the condition holds: take the true branch
-                    run(list(st.body) + rest, dict(env, **{'#uncompressed': True}))
-                    return
-                for branch, pol in ((st.body, True), (st.orelse, False)):
-                    e2 = dict(env)
-                    e2.setdefault('#guards', [])
-                    e2['#guards'] = e2['#guards'] + [(t, pol)]
-                    run(list(branch) + rest, e2)
-                return
-            if isinstance(st, ast.Raise):
-                outcomes.append(('raise', norm(st.exc.func) if isinstance(st.exc, ast.Call) else norm(st.exc), env))
-                return
-            if isinstance(st, ast.Return):
-                outcomes.append(('return', st.value, env))
-                return
-            raise AnalysisError('%s: statement outside the vocabulary: %s' % (f.site, norm(st)[:60]))
-    run(h.body, {})
-    rets = [o for o in outcomes if o[0] == 'return']
-    if not rets:
-        raise AnalysisError('%s: helper never returns' % f.site)
+    def build(names):
+        """interpret DebFile.__init__ on an archive with these member names -> ('ok', {part: member}) / ('raise', exc)"""
+        heap = H.Heap(mod, hooks={'ArFile.__init__': lambda it, args, kw: None, '.getnames': lambda it, args, kw: it.h.new_list(list(names)),
+                                  '.getmember': lambda it, args, kw: it.h.alloc('ArMember', {'name': args[1]}), '.read': lambda it, args, kw: '2.0\n', '.close': lambda it, args, kw: None,
+                                  'DebControl': lambda it, args, kw: it.h.alloc('DebControl', {'member': args[0]}),
+                                  'DebData': lambda it, args, kw: it.h.alloc('DebData', {'member': args[0]})})
+        heap.symbolic_strings = True
+        me = heap.alloc('DebFile', {}, name='@deb')
+        it = H.Interp(heap)
+        try:
+            it.call(H.Closure(f.node, {}, me, f.cls), [None, 'r', None])
+        except H.Raised as x:
+            return ('raise', x.exc)
+        parts = heap.objs[me.name].get('_DebFile__parts')
+        out = {}
+        if parts is not None:
+            for k, v in heap.objs[parts.name]['entries']:
+                o = heap.objs[v.name]
+                mem = o.get('member')
+                out[k] = (o['__class__'], heap.objs[mem.name]['name'] if mem is not None else None)
+        return ('ok', out)
+    n_cases = 0
     bad = None
-    for _, val, env in rets:
-        # which set does the returned name come from
-        names = [x.id for x in ast.walk(val) if isinstance(x, ast.Name) and isinstance(env.get(x.id), tuple)]
-        src_sets = [env[n] for n in names]
-        if len(src_sets) != 1 or src_sets[0][0] != 'cap':
-            bad = 'the returned member is not taken from `archive members ∩ candidates` (it comes from %s): an archive that offers more than one ' \
-                  'candidate for the part (e.g. data.tar and data.tar.gz) is accepted instead of DebError' % (src_sets[0] if src_sets else norm(val),)
-            break
-        if src_sets[0][1] != frozenset(['COMP', 'BASE']):
-            bad = 'the members are intersected with %s only; the uniqueness check must cover all compressed candidates and the uncompressed one together' \
-                  % sorted(src_sets[0][1])
-            break
-        guards = env.get('#guards', [])
-        pname = names[0]
-        empt = any(t in ('not %s' % pname, 'len(%s) == 0' % pname) and pol is False for t, pol in guards)
-        many = any(t in ('len(%s) > 1' % pname, 'len(%s) != 1' % pname, 'len(%s) >= 2' % pname) and pol is False for t, pol in guards)
-        if not (empt or any(t == 'len(%s) != 1' % pname and pol is False for t, pol in guards)):
-            bad = 'a missing part is not rejected before the member is used'
-            break
-        if not many:
-            bad = 'more than one candidate for a part is not rejected (no `len(parts) > 1` guard on the path to the return)'
-            break
-    for kind, exc, env in outcomes:
-        if kind == 'raise' and exc != 'DebError':
-            bad = bad or 'a structurally defective archive raises %s instead of DebError' % exc
+    for part, other, cls_ in ((CTRL, DATA + '.gz', 'DebControl'), (DATA, CTRL + '.gz', 'DebData')):
+        cands = ['%s.%s' % (part, e) for e in exts] + [part]
+        base = [INFO, other, '_gpgorigin']
+        scen = [((), 'DebError')] + [((c,), c) for c in cands] + [(pair, 'DebError') for pair in itertools.combinations(cands, 2)] + [(tuple(cands), 'DebError')]
+        for members, want in scen:
+            n_cases += 1
+            res = build(base + list(members))
+            if want == 'DebError':
+                if res != ('raise', 'DebError') and bad is None:
+                    bad = 'an archive with the members %s for the %s part is %s; exactly one of %s must be present, otherwise DebError' % (
+                        list(members) or 'none', part, 'accepted (part wired to %r)' % (res[1].get(part),) if res[0] == 'ok' else 'rejected with %s' % res[1], cands)
+            else:
+                if (res[0] != 'ok' or res[1].get(part) != (cls_, want)) and bad is None:
+                    bad = 'an archive whose %s part is the single member %r gives %r instead of %s(%s)' % (part, want, res, cls_, want)
+    res = build([CTRL + '.gz', DATA + '.gz'])
+    n_cases += 1
+    if res != ('raise', 'DebError') and bad is None:
+        bad = 'an archive without %s is not rejected with DebError (%r)' % (INFO, res)
     if bad:
-        rep.fail('C07.R2', f.site, 'exactly one candidate per part', bad, where='%s:%d' % (f.module.relpath, h.lineno))
+        rep.fail('C07.R2', f.site, 'exactly one candidate per part', bad, where=f.where)
     else:
-        rep.ok('C07.R2', f.site, 'exactly one candidate per part', 'parts = members ∩ (compressed ∪ uncompressed); empty → DebError; >1 → DebError; %d return path(s)' % len(rets))
-    rep.analysed['paths'] += len(outcomes)
-    # every candidate name passes the extension test of tgz()
+        rep.ok('C07.R2', f.site, 'exactly one candidate per part', '%d archive layouts interpreted: none / two or more candidates → DebError, a single candidate (compressed or '
+               'uncompressed) is wired to its part' % n_cases)
+    rep.analysed['paths'] += n_cases
+    # every candidate name passes the extension test of tgz(); other names are refused; tarfile errors become DebError
     t = src.func(M + ':DebPart.tgz')
     rep.saw_func(t)
-    tests = [n for n in walk_no_nested(t.node) if isinstance(n, ast.If) and 'PART_EXTS' in norm(n.test)]
-    if len(tests) != 1:
-        raise AnalysisError('%s: extension test not found' % t.site)
-    tt = norm(tests[0].test)
-    if 'extension in PART_EXTS' in tt and 'name == DATA_PART' in tt and 'name == CTRL_PART' in tt and ' and ' not in tt \
-            and 'extension = os.path.splitext(name)[1][1:]' in norm(t.node):
-        rep.ok('C07.R2', t.site, 'every candidate passes the extension test', 'ext ∈ PART_EXTS or name is data.tar/control.tar')
+    import os.path as _osp
+
+    def open_part(name, tar_error=None):
+        def topen(it, args, kw):
+            if tar_error:
+                raise H.Raised(tar_error, it.h.version, 0)
+            return it.h.alloc('TarFile', {}, name='@tar')
+        heap = H.Heap(mod, hooks={'os.path.splitext': lambda it, args, kw: tuple(_osp.splitext(args[0])), 'tarfile.open': topen})
+        heap.symbolic_strings = True
+        member = heap.alloc('ArMember', {'name': name}, name='@member')
+        part = heap.alloc('DebPart', {'_DebPart__member': member, '_DebPart__tgz': None}, name='@part')
+        try:
+            r = H.Interp(heap).call(H.Closure(t.node, {}, part, t.cls), [])
+        except H.Raised as x:
+            return ('raise', x.exc)
+        return ('ok', r)
+    cands = ['%s.%s' % (p_, e) for p_ in (CTRL, DATA) for e in exts] + [CTRL, DATA]
+    refused = [c for c in cands if open_part(c)[0] != 'ok']
+    if refused:
+        rep.fail('C07.R2', t.site, 'every candidate passes the extension test', 'tgz() refuses the part %r that DebFile.__init__ selects (%r)' % (refused[0], open_part(refused[0])), where=t.where)
     else:
-        rep.fail('C07.R2', t.site, 'every candidate passes the extension test', 'the test `%s` rejects a part that DebFile.__init__ selected (e.g. uncompressed control.tar)' % tt,
-                 where=t.where)
-    conv = [h2 for n in walk_no_nested(t.node) if isinstance(n, ast.Try) for h2 in n.handlers]
-    if conv and all(any(isinstance(s, ast.Raise) and 'DebError' in norm(s) for s in h2.body) for h2 in conv) \
-            and any('ReadError' in norm(h2.type) and 'CompressionError' in norm(h2.type) for h2 in conv):
-        rep.ok('C07.R3', t.site, 'tarfile errors become DebError', 'except (ReadError, CompressionError): raise DebError')
+        rep.ok('C07.R2', t.site, 'every candidate passes the extension test', '%d candidate member names are opened' % len(cands))
+    odd = [n for n in ('data.tar.zip', 'control.tar.foo', 'data.tgz') if open_part(n) != ('raise', 'DebError')]
+    if odd:
+        rep.fail('C07.R3', t.site, 'unknown part extensions → DebError', 'the member %r is opened / fails with %r instead of DebError' % (odd[0], open_part(odd[0])), where=t.where)
     else:
-        rep.fail('C07.R3', t.site, 'tarfile errors become DebError', 'tarfile.ReadError/CompressionError are not converted to DebError', where=t.where)
-    for r in [x for x in walk_no_nested(t.node) if isinstance(x, ast.Raise)]:
-        if 'DebError' not in norm(r):
-            rep.fail('C07.R3', t.site, 'raise ' + norm(r)[:40], 'tgz() raises something other than DebError', where=t.where)
+        rep.ok('C07.R3', t.site, 'unknown part extensions → DebError', 'refused with DebError')
+    conv = [e for e in ('tarfile.ReadError', 'tarfile.CompressionError') if open_part(DATA + '.gz', e) != ('raise', 'DebError')]
+    if conv:
+        rep.fail('C07.R3', t.site, 'tarfile errors become DebError', '%s escapes from tgz() (%r)' % (conv[0], open_part(DATA + '.gz', conv[0])), where=t.where)
+    else:
+        rep.ok('C07.R3', t.site, 'tarfile errors become DebError', 'ReadError and CompressionError are converted')
 
 
 def r3_init(rep, src):
@@ -265,52 +236,78 @@ def r3_init(rep, src):
 
 
 def r4_md5_scripts(rep, src):
+    from .. import heap as H, symstr
+    from ..symstr import SStr
+    mod = src.mod(M)
     f = src.func(M + ':DebControl.md5sums')
     rep.saw_func(f)
-    g = cfg.CFG(f.node)
-    guard = [n for n in g.nodes if n.kind == 'test' and norm(n.ast) == 'not self.has_file(MD5_FILE)']
-    reads = [g.node_for(c) for c in ast.walk(f.node) if isinstance(c, ast.Call) and norm(c.func) == 'self.get_file']
-    if guard and reads and all(g.dominates(guard[0].id, r.id) for r in reads) and \
-            any(lab is True and g.nodes[d].kind == 'raise' and 'DebError' in norm(g.nodes[d].ast) for d, lab in g.succ[guard[0].id]):
-        rep.ok('C07.R4', f.site, 'missing md5sums → DebError', 'has_file guard dominates the read')
-    else:
-        rep.fail('C07.R4', f.site, 'missing md5sums → DebError', 'a control part without md5sums is not rejected with DebError before reading', where=f.where)
-    splits = [c for c in ast.walk(f.node) if isinstance(c, ast.Call) and isinstance(c.func, ast.Attribute) and c.func.attr == 'split']
-    ok = False
-    why = 'the md5sums lines are not split'
-    for c in splits:
-        args = [norm(a) for a in c.args]
-        recv = c.func.value
-        if args == ['None', '1'] and isinstance(recv, ast.Call) and isinstance(recv.func, ast.Attribute) and recv.func.attr == 'rstrip' \
-                and len(recv.args) == 1 and norm(recv.args[0]) == 'newline':
-            ok = True
-        else:
-            why = 'lines are split with %s: file names containing blanks are cut, or more than the line end is stripped' % norm(c)[:60]
-    nl = [s for s in ast.walk(f.node) if isinstance(s, ast.Assign) and norm(s.targets[0]) == 'newline']
-    if ok and {norm(s.value) for s in nl} == {"'\\r\\n'", "b'\\r\\n'"}:
-        rep.ok('C07.R4', f.site, 'line → (md5, name)', 'rstrip(CR LF).split(None, 1)')
-    else:
-        rep.fail('C07.R4', f.site, 'line → (md5, name)', why, where=f.where)
-    tup = [s for s in ast.walk(f.node) if isinstance(s, ast.Assign) and isinstance(s.targets[0], ast.Tuple)]
-    st = [s for s in ast.walk(f.node) if isinstance(s, ast.Assign) and isinstance(s.targets[0], ast.Subscript) and norm(s.targets[0].value) == 'sums']
-    if tup and [norm(x) for x in tup[0].targets[0].elts] == ['md5', 'fname'] and st and all(norm(s.targets[0].slice) == 'fname' and 'md5' in norm(s.value) for s in st):
-        rep.ok('C07.R4', f.site, 'map name → md5', 'sums[fname] = md5', nontrivial=False)
-    else:
-        rep.fail('C07.R4', f.site, 'map name → md5', 'the md5sum map is not keyed by file name with the checksum as value', where=f.where)
+    MD5 = symstr.atom('md5', r'[0-9a-f]{32}')
+    NAME = symstr.atom('file name', r'[^\s\x00](?:[^\n\r\x00]*[^\s\x00])?')      # may contain blanks inside
+    for binary in (True, False):
+        for eol in ('\n', '\r\n'):
+            for present in (True, False):
+                lines = [MD5 + '  ' + NAME + eol]
+                heap = H.Heap(mod, hooks={'.has_file': lambda it, args, kw, present=present: present,
+                                          '.get_file': lambda it, args, kw: it.h.alloc('File', {}, name='@md5file'),
+                                          '.readlines': lambda it, args, kw, lines=lines: it.h.new_list(list(lines)),
+                                          '.close': lambda it, args, kw: None})
+                heap.symbolic_strings = True
+                heap.bytes_mode = binary
+                ctl = heap.alloc('DebControl', {}, name='@control')
+                what = 'md5sums(%s), line end %r, md5sums member %s' % ('binary' if binary else 'text', eol, 'present' if present else 'missing')
+                try:
+                    r = H.Interp(heap).call(H.Closure(f.node, {}, ctl, f.cls), [None if binary else 'utf-8', None])
+                except H.Raised as x:
+                    if not present and x.exc == 'DebError':
+                        rep.ok('C07.R4', f.site, what, 'DebError')
+                    else:
+                        rep.fail('C07.R4', f.site, what, 'raises %s' % x.exc, where=f.where)
+                    continue
+                if not present:
+                    rep.fail('C07.R4', f.site, what, 'a control part without md5sums is not rejected with DebError before reading', where=f.where)
+                    continue
+                ent = heap.objs[r.name]['entries'] if isinstance(r, H.Ref) and heap.objs[r.name]['__class__'] == 'dict' else None
+                if ent is not None and len(ent) == 1 and isinstance(ent[0][0], SStr) and ent[0][0].same(NAME) and isinstance(ent[0][1], SStr) and ent[0][1].same(MD5):
+                    rep.ok('C07.R4', f.site, what, '{file name: md5}')
+                else:
+                    rep.fail('C07.R4', f.site, what, 'the line "<md5>  <file name>%s" is mapped to %r instead of {file name: md5}: file names with blanks are cut, '
+                             'or more/less than the line end is stripped' % (eol.replace('\r', '\\r').replace('\n', '\\n'), ent), where=f.where)
     s = src.func(M + ':DebControl.scripts')
     rep.saw_func(s)
-    scripts = src.mod(M).consts.get('', {}).get('MAINT_SCRIPTS') or []
-    t = norm(s.node)
-    if {'preinst', 'postinst', 'prerm', 'postrm', 'config'} <= set(scripts) and 'for fname in MAINT_SCRIPTS' in t and 'if self.has_file(fname)' in t \
-            and 'scripts[fname] = data' in t and 'data = self.get_content(fname)' in t:
-        rep.ok('C07.R4', s.site, 'maintainer scripts', 'present scripts of %r mapped name → content' % (scripts,))
-    else:
-        rep.fail('C07.R4', s.site, 'maintainer scripts', 'scripts() does not return every present maintainer script under its own name', where=s.where)
+    scripts = mod.consts.get('', {}).get('MAINT_SCRIPTS') or []
+    if not {'preinst', 'postinst', 'prerm', 'postrm', 'config'} <= set(scripts):
+        rep.fail('C07.R4', M + ':MAINT_SCRIPTS', 'maintainer script names', 'MAINT_SCRIPTS = %r' % (scripts,))
+    for present, empty in ((set(scripts), set()), ({'postinst', 'config'}, set()), (set(), set()), ({'preinst', 'prerm'}, {'prerm'})):
+        heap = H.Heap(mod, hooks={'.has_file': lambda it, args, kw, present=present: args[1] in present,
+                                  '.get_content': lambda it, args, kw, empty=empty: None if args[1] in empty else H.Key('content-of-' + args[1], args[1])})
+        heap.symbolic_strings = True
+        ctl = heap.alloc('DebControl', {}, name='@control')
+        what = 'scripts() with %s present%s' % (sorted(present) or 'nothing', (', %s unreadable' % sorted(empty)) if empty else '')
+        try:
+            r = H.Interp(heap).call(H.Closure(s.node, {}, ctl, s.cls), [])
+        except H.Raised as x:
+            rep.fail('C07.R4', s.site, what, 'raises %s' % x.exc, where=s.where)
+            continue
+        got = {k: v.cls for k, v in heap.objs[r.name]['entries']} if isinstance(r, H.Ref) else None
+        want = {n: 'content-of-' + n for n in scripts if n in present and n not in empty}
+        if got == want:
+            rep.ok('C07.R4', s.site, what, 'name → content for %d scripts' % len(want))
+        else:
+            rep.fail('C07.R4', s.site, what, 'scripts() returns %r; every present maintainer script must appear under its own name with its own content (%r)' % (got, want), where=s.where)
     d = src.func(M + ':DebControl.debcontrol')
-    if 'Deb822(self.get_content(CONTROL_FILE))' in norm(d.node) and src.mod(M).consts['']['CONTROL_FILE'] == 'control':
-        rep.ok('C07.R4', d.site, 'control fields', 'Deb822(get_content("control"))', nontrivial=False)
+    rep.saw_func(d)
+    seen = []
+    heap = H.Heap(mod, hooks={'.get_content': lambda it, args, kw: seen.append(args[1]) or 'TEXT', 'Deb822': lambda it, args, kw: ('deb822', args[0])})
+    heap.symbolic_strings = True
+    ctl = heap.alloc('DebControl', {}, name='@control')
+    try:
+        r = H.Interp(heap).call(H.Closure(d.node, {}, ctl, d.cls), [])
+    except H.Raised as x:
+        r = ('raise', x.exc)
+    if r == ('deb822', 'TEXT') and seen == ['control']:
+        rep.ok('C07.R4', d.site, 'control fields', 'Deb822(get_content("control"))')
     else:
-        rep.fail('C07.R4', d.site, 'control fields', 'debcontrol() does not parse the "control" member', where=d.where)
+        rep.fail('C07.R4', d.site, 'control fields', 'debcontrol() does not parse the "control" member (%r, members read: %r)' % (r, seen), where=d.where)
 
 
 def check(src, rep, tier):
